@@ -49,11 +49,19 @@ func genC07(t *rapid.T, tier string) (*World, any) {
 		used[n] = true
 		names = append(names, n)
 	}
+	deep := chance(t, 6, "deepchain")
+	if deep {
+		// a chain of 12-20 definitions, each referring to the next (level13 sorts before level2)
+		names = nil
+		for k := 1; k <= drawInt(t, 12, 20, "deeplen"); k++ {
+			names = append(names, fmt.Sprintf("level%d", k))
+		}
+	}
 	for i := len(names) - 1; i >= 0; i-- {
 		v := pick(t, defValuePool, "defval")
 		// references to names later in the order (chains, diamonds)
 		for j := i + 1; j < len(names); j++ {
-			if chance(t, 35, "defref") {
+			if (deep && j == i+1) || (!deep && chance(t, 35, "defref")) {
 				if drawBool(t, "defref-front") {
 					v = "{{" + names[j] + "}}" + v
 				} else {
